@@ -241,7 +241,11 @@ func VerifC11Sizing() {
 	zzverif.Reach("C11.sizing.created")
 	mx := int(svr.cfg.Transport.MaxPoolCount)
 	zzverif.Assert(ctl.poolCount <= mx, "C11.sizing.advance-requests<=server-max")
-	zzverif.Assert(ctl.poolCount <= pc, "C11.sizing.advance-requests<=client-poolcount")
+	if pc >= 0 {
+		zzverif.Assert(ctl.poolCount <= pc, "C11.sizing.advance-requests<=client-poolcount")
+	} else {
+		zzverif.Assert(ctl.poolCount == 0, "C11.sizing.no-advance-requests-for-negative-poolcount")
+	}
 	zzverif.Assert(cap(ctl.workConnCh) == ctl.poolCount+10, "C11.sizing.bounded-capacity")
 	if pc >= 0 {
 		want := pc
